@@ -326,7 +326,7 @@ def runLine (d : DCfg) (kind : String) (max : Int) (sec : Nat) (acc : Report × 
     | ["drain"] => none
     | _ => ds.bholder
   -- tokens that carry the event order inside the line are for the monitor only
-  let obsCmp := l.obs.filter fun t => !(t.startsWith "ends=" || t.startsWith "wret=")
+  let obsCmp := l.obs.filter fun t => !(t.startsWith "ends=" || t.startsWith "wret=" || t.startsWith "unprot=")
   let implCmp := joinSp obsCmp
   -- (a) the monitor, on the implementation's observation alone
   if impl ≠ "skip" then
@@ -346,6 +346,9 @@ def runLine (d : DCfg) (kind : String) (max : Int) (sec : Nat) (acc : Report × 
       | none => nf
     let (m', msgs) := ds.mon.step (callOf ds.bholder l.op) idle nf endsAt
     if wret.any (fun p => p.2 < ends.length) then r := r.addCover "wait-returned-before-last-callback-end-of-line"
+    -- "a panicking callback loses only its own batch": the callback must run under the executor's panic protection
+    for x in parseNats (kvStr l.obs "unprot" "-") do
+      r := r.violation sec l.idx s!"the callback of the batch starting with task {x} runs without panic protection (no threading.RunSafe on the stack of Execute): a panicking callback would not lose only its own batch, it would take down the flusher goroutine and the process"
     for msg in msgs do r := r.violation sec l.idx msg
     ds := { ds with mon := m' }
     for c in ws do r := r.addCover ("caller-" ++ c)
@@ -393,6 +396,7 @@ def runLine (d : DCfg) (kind : String) (max : Int) (sec : Nat) (acc : Report × 
     if ws.contains "hold" ∧ ws.contains "flock" then r := r.addCover "flush-or-wait-while-caller-holds-lock"
     if ws.contains "hold" ∧ ws.contains "alock" then r := r.addCover "add-while-caller-holds-lock"
     if fls.contains "hold" ∧ ws.contains "alock" then r := r.addCover "add-while-flusher-holds-lock-in-tick-flush"
+    if fls.contains "qlock" ∧ ws.contains "hold" ∧ cont.length > 0 then r := r.addCover "add-slipped-between-empty-tick-flush-and-quit-check"
     -- input class: somebody is parked at the wait-group barrier (before wg.Add) when the barrier is released
     if l.op.head? = some "brel" then
       match ds.lastWs with
